@@ -51,10 +51,22 @@ def cells_for(prop, tier, seed):
     return cs
 
 
+def finding_cells(prop):
+    """the exact inputs of the recorded known findings: always part of the run (both tiers)"""
+    import os
+    path = os.path.join(os.path.dirname(os.path.abspath(__file__)), "hydro_finding_cells.json")
+    with open(path) as f:
+        return json.load(f).get(prop, [])
+
+
 def run(chk, tier, seed, prop):
     for cfg, exp, lab in DESIGN[prop]:
         chk.add_model(tlc.run_model("HydroMatch.tla", cfg), expect_violation=exp, label=lab)
     cs = cells_for(prop, tier, seed)
+    have = {c["eos"] + "_" + c["tag"] for c in cs}
+    for c in finding_cells(prop):
+        if c["eos"] + "_" + c["tag"] not in have:
+            cs.append(c)
     with Pool(16) as pool:
         traces = pool.map(hydro.run_trace, cs, chunksize=1)
     for tr in traces:
